@@ -86,12 +86,13 @@ def execute(case, monitors, iter_cap=400):
                 s = inc.new_sampler(**(case.get("reconfig") or {}))
                 info["sampler"] = s
                 try:
-                    s.run(n_total=n_total, progress=False, resume_state_path=ck, save_every=save_every)
+                    n2 = case.get("resume_n_total", n_total)
+                    s.run(n_total=n2, progress=False, resume_state_path=ck, save_every=save_every)
                     info["completed"] = True
                     info["resumed"] = ck is not None
                     for m in w.monitors:
                         if hasattr(m, "on_run_end"):
-                            m.on_run_end(inc, s, n_total, "resumed")
+                            m.on_run_end(inc, s, n2, "resumed")
                 except SimHang:
                     raise
                 except Exception as e:
